@@ -33,6 +33,18 @@ for _k in ('label', 'comment', 'name', 'text'):
     META_MENU[_k].append(None)
 for _k in ('color', 'linestyle', 'fontname'):
     VISUAL_MENU[_k].append(None)
+# near-twins of menu values: equal only after case folding, stripping,
+# rounding, sorting or tuple/list conversion -- none of which == may apply
+META_MENU['text'] += ['Lbl', 'lbl ']
+META_MENU['label'] += ['l1', 'L1 ']
+META_MENU['name'] += ['N1', ' n1']
+META_MENU['tag'] += [{'t': 'list', 'v': ['g2', 'g1']}]
+META_MENU['corr'] += [{'t': 'list', 'v': ['Q', 'I']}]
+VISUAL_MENU['linewidth'] += [2.0000001]
+VISUAL_MENU['color'] += ['Green', 'green ']
+VISUAL_MENU['fontsize'] += [10.000001]
+VISUAL_MENU['dashes'] += [{'t': 'list', 'v': [3, 4]},
+                          {'t': 'list', 'v': [4, 3]}]
 META_VALID = ['background', 'comment', 'component', 'composite', 'corr',
               'delete', 'edit', 'fixed', 'frame', 'highlite', 'include',
               'label', 'line', 'move', 'name', 'range', 'restfreq',
@@ -46,7 +58,8 @@ VISUAL_VALID = ['color', 'dash', 'dashlist', 'fill', 'font',
                 'default_style', 'dashes', 'markeredgewidth', 'rotation',
                 'facecolor', 'edgecolor']
 VISUAL_KEYMAP = {'point': 'symbol', 'width': 'linewidth'}
-BAD_KEYS = ['bogus', 'colour', 'Include', 'radius', '', 'tags']
+BAD_KEYS = ['bogus', 'colour', 'Include', 'radius', '', 'tags', ' tag',
+            'tag ', 'TAG', None, 5, ('tag',), b'tag']
 # keys of the *other* vocabulary are just as invalid (and are exactly what a
 # shared cache or a "trusted Meta argument" shortcut would let through)
 META_ONLY = [k for k in META_VALID if k not in VISUAL_VALID]
@@ -164,12 +177,24 @@ def mirror(obj, src, memo=None):
     return n
 
 
+def _plain(x):
+    """``x`` as plain JSON data (other objects by their repr)."""
+    if x is None or isinstance(x, (bool, int, float, str)):
+        return x
+    if isinstance(x, dict):
+        return {k if isinstance(k, str) else repr(k): _plain(v)
+                for k, v in x.items()}
+    if isinstance(x, (list, tuple)):
+        return [_plain(v) for v in x]
+    return repr(x)
+
+
 def _vcopy(d):
     return {k: copy.deepcopy(v) for k, v in d.items()}
 
 
 def _ntok(t):
-    if isinstance(t, (list, tuple)) and t and t[0] == 'near':
+    if isinstance(t, (list, tuple)) and t and t[0] in ('near', 'in9x', 'in9y'):
         return t[1]
     return tuple(t) if isinstance(t, list) else t
 
@@ -216,6 +241,19 @@ def mk_value(kind, tok, near=False):
     if deco == 'far' and kind == 'pixpos':
         r = dict(r)
         r['x'] = r['x'] * (1 + 1e-4) if r['x'] else 1e-6
+    if deco in ('out11x', 'out11y', 'in9x', 'in9y') and kind == 'pixpos':
+        # just outside (1.1e-5) / just inside (0.9e-5) the documented
+        # relative tolerance, on one coordinate; at 0 the absolute 1e-8
+        r = dict(r)
+        ax = deco[-1]
+        rel, ab = (-1.1e-5, -2e-8) if deco.startswith('out') \
+            else (0.9e-5, 5e-9)
+        if ax == 'y':         # away from the 'near' variant (x up, y down)
+            rel, ab = -rel, -ab
+        r[ax] = r[ax] * (1 + rel) if r[ax] else ab
+    if deco == 'ulpsky' and kind == 'skypos':
+        r = dict(r)
+        r['lon'] = r['lon'] + 3e-11           # must compare UNEQUAL (exact)
     v = build(r)
     if deco == 'ulp':
         if kind == 'size':
@@ -229,8 +267,10 @@ def decorate(rng, kind, tok):
     """Sometimes turn a menu token into a boundary variant of it."""
     if kind in ('size', 'asize', 'angle') and rng.chance(0.15):
         return ['ulp', tok]
-    if kind == 'pixpos' and rng.chance(0.15):
-        return ['far', tok]
+    if kind == 'pixpos' and rng.chance(0.3):
+        return [rng.pick(['far', 'out11x', 'out11y', 'in9x', 'in9y']), tok]
+    if kind == 'skypos' and rng.chance(0.1):
+        return ['ulpsky', tok]
     return tok
 
 
@@ -263,6 +303,8 @@ def valid_variant(rng, kind, tok):
             return Longitude(v) if kind == 'angle' or v.value > 0 else v
         if c == 5:
             return u.Quantity(np.float32(v.value), v.unit)
+        if c == 0 and rng.chance(0.5):
+            return v.to(rng.pick([u.hourangle, u.mas, u.uas, u.mrad]))
     elif kind == 'nvert':
         if c == 1:
             return np.int64(v)
@@ -315,6 +357,7 @@ def _invalid_values(kind):
                 ('np_inf', {'t': 'npf', 'v': {'t': 'inf'}})]
     if kind == 'nvert':
         return [('zero', 0), ('neg', -3), ('str', 'a'), ('none', None),
+                ('one', 1), ('two', 2), ('two_and_a_half', 2.5),
                 ('numeric_str', '5'), ('numeric_bytes', {'t': 'bytes', 'v': '5'}),
                 ('list', {'t': 'list', 'v': [3]}), ('nan', {'t': 'nan'}),
                 ('inf', {'t': 'inf'})]
@@ -324,7 +367,9 @@ def _invalid_values(kind):
                 ('ninf', Q({'t': 'ninf'}, 'arcsec')),
                 ('bare_float', 2.0), ('bare_int', 3),
                 ('non_angular', Q(2.0, 'm')), ('dimensionless', Q(2.0, '')),
-                ('parsec', Q(3.0, 'pc')),
+                ('parsec', Q(3.0, 'pc')), ('solid_angle', Q(2.0, 'sr')),
+                ('deg2', Q(2.0, 'deg2')), ('per_deg', Q(2.0, '1/deg')),
+                ('deg_per_s', Q(2.0, 'deg/s')),
                 ('array', Q([1.0, 2.0], 'deg')), ('str', 'abc'),
                 ('quantity_str', '5 deg'), ('numeric_str', '5'),
                 ('none', None), ('pix_quantity', Q(2.0, 'pix')),
@@ -337,6 +382,8 @@ def _invalid_values(kind):
         return [('bare_float', 30.0), ('bare_int', 0),
                 ('non_angular', Q(30.0, 'm')), ('dimensionless', Q(1.0, '')),
                 ('pix', Q(30.0, 'pix')), ('parsec', Q(3.0, 'pc')),
+                ('solid_angle', Q(2.0, 'sr')), ('deg2', Q(2.0, 'deg2')),
+                ('deg_per_s', Q(2.0, 'deg/s')),
                 ('array', Q([1.0, 2.0], 'deg')), ('str', '30deg'),
                 ('none', None), ('time', Q(3.0, 's')),
                 ('angle_array', {'t': 'angle', 'v': [10.0, 20.0], 'u': 'deg'}),
@@ -356,6 +403,8 @@ def _invalid_values(kind):
                 ('list', {'t': 'list', 'v': [1.0, 2.0]})]
     if kind == 'skypos':
         return [('array', skyarr), ('pix', pixs),
+                ('str', '10d 20d'), ('frame', {'t': 'exotic', 'v': 'icrs_frame'}),
+                ('empty', {'t': 'sky', 'lon': [], 'lat': []}),
                 ('array1', {'t': 'sky', 'lon': [10.0], 'lat': [20.0]}),
                 ('tuple', {'t': 'tuple', 'v': [10.0, 20.0]}), ('none', None),
                 ('float', 3.0), ('pixarr', pixarr),
@@ -374,6 +423,12 @@ def _invalid_values(kind):
                              'lat': None, '_2d': True}),
                 ('quantity', Q([10.0, 20.0, 30.0], 'deg'))]
     return []
+
+
+def _icrs_frame():
+    import astropy.units as u
+    from astropy.coordinates import ICRS
+    return ICRS(10 * u.deg, 20 * u.deg)
 
 
 def _mutated_pixcoord(how):
@@ -400,6 +455,7 @@ def build_invalid(rec):
         return {'complex': 1 + 2j, 'dict': {'a': 1}, 'set': {1, 2},
                 'object': object(), 'function': len, 'type': float,
                 # non-positive / non-finite numbers of other numeric types
+                'icrs_frame': _icrs_frame(),
                 'decimal_inf': decimal.Decimal('Infinity'),
                 'decimal_ninf': decimal.Decimal('-Infinity'),
                 'decimal_zero': decimal.Decimal('0'),
@@ -548,35 +604,10 @@ def domain_problems(obj):
                 continue
             v = getattr(obj, f)
             p = None
-            if kind in ('size', 'nvert'):
-                if isinstance(v, u.Quantity) or not np.isscalar(v) \
-                        or isinstance(v, (str, bytes)):
-                    p = f'{f}={v!r} is not a plain scalar'
-                elif not (v > 0) or not math.isfinite(v):
-                    p = f'{f}={v!r} is not positive and finite'
-            elif kind == 'asize':
-                if not isinstance(v, u.Quantity) or not v.isscalar or \
-                        v.unit.physical_type != 'angle':
-                    p = f'{f}={v!r} is not a scalar angle'
-                elif not (v.value > 0) or not math.isfinite(v.value):
-                    p = f'{f}={v!r} is not positive and finite'
-            elif kind == 'angle':
-                if not isinstance(v, u.Quantity) or not v.isscalar or \
-                        v.unit.physical_type != 'angle':
-                    p = f'{f}={v!r} is not a scalar angle'
-            elif kind == 'pixpos':
-                if not isinstance(v, PixCoord) or not v.isscalar:
-                    p = f'{f}={v!r} is not a scalar PixCoord'
-            elif kind == 'skypos':
-                if not isinstance(v, SkyCoord) or not v.isscalar:
-                    p = f'{f}={v!r} is not a scalar SkyCoord'
-            elif kind == 'pixverts':
-                if not isinstance(v, PixCoord) or v.isscalar or \
-                        np.ndim(v.x) != 1:
-                    p = f'{f}={v!r} is not a 1-D PixCoord'
-            elif kind == 'skyverts':
-                if not isinstance(v, SkyCoord) or v.ndim != 1:
-                    p = f'{f}={v!r} is not a 1-D SkyCoord'
+            try:
+                p = _field_problem(f, kind, v, u, PixCoord, SkyCoord)
+            except Exception as exc:      # e.g. complex > 0
+                p = f'{f}={v!r} is not in the domain ({type(exc).__name__})'
             if p:
                 out.append((f, p))
         for inner, outer in gen.ANNULUS_PAIRS.get(name, []):
@@ -596,6 +627,42 @@ def domain_problems(obj):
             if bad:
                 out.append((f, f'{f} has keys outside the vocabulary: {bad}'))
     return out
+
+
+def _field_problem(f, kind, v, u, PixCoord, SkyCoord):
+    p = None
+    if kind in ('size', 'nvert'):
+        if isinstance(v, u.Quantity) or not np.isscalar(v) \
+                or isinstance(v, (str, bytes)):
+            p = f'{f}={v!r} is not a plain scalar'
+        elif not (v > 0) or not math.isfinite(v):
+            p = f'{f}={v!r} is not positive and finite'
+        elif kind == 'nvert' and v < 3:
+            p = f'{f}={v!r} is smaller than 3'
+    elif kind == 'asize':
+        if not isinstance(v, u.Quantity) or not v.isscalar or \
+                v.unit.physical_type != 'angle':
+            p = f'{f}={v!r} is not a scalar angle'
+        elif not (v.value > 0) or not math.isfinite(v.value):
+            p = f'{f}={v!r} is not positive and finite'
+    elif kind == 'angle':
+        if not isinstance(v, u.Quantity) or not v.isscalar or \
+                v.unit.physical_type != 'angle':
+            p = f'{f}={v!r} is not a scalar angle'
+    elif kind == 'pixpos':
+        if not isinstance(v, PixCoord) or not v.isscalar:
+            p = f'{f}={v!r} is not a scalar PixCoord'
+    elif kind == 'skypos':
+        if not isinstance(v, SkyCoord) or not v.isscalar:
+            p = f'{f}={v!r} is not a scalar SkyCoord'
+    elif kind == 'pixverts':
+        if not isinstance(v, PixCoord) or v.isscalar or \
+                np.ndim(v.x) != 1:
+            p = f'{f}={v!r} is not a 1-D PixCoord'
+    elif kind == 'skyverts':
+        if not isinstance(v, SkyCoord) or v.ndim != 1:
+            p = f'{f}={v!r} is not a 1-D SkyCoord'
+    return p
 
 
 # ------------------------------------------------------------- machine
@@ -725,7 +792,7 @@ class Machine:
     def ev(self, **kw):
         kw['step'] = self.step
         kw.setdefault('op', self.cur_op)
-        self.events.append(kw)
+        self.events.append(_plain(kw))
 
     def result(self):
         return {'seed': self.plan['seed'], 'events': self.events,
@@ -895,7 +962,7 @@ class Machine:
         changes = {}
         desc = {}
         if S.model.compound:
-            names = ['meta', 'visual', 'region1', 'region2']
+            names = ['meta', 'visual', 'region1', 'region2', 'operator']
         else:
             names = [f for f, _ in S.model.fields()] + ['meta', 'visual']
         k = rng.weighted([(1, 5), (2, 3), (3, 1)])
@@ -916,6 +983,11 @@ class Machine:
                 changes[f] = build({'t': f, 'v': items})
                 setattr(m, f, MDict(f, items_to_model(items)))
                 desc[f] = items
+            elif f == 'operator':
+                opn = rng.pick(['and_', 'or_', 'xor'])
+                changes[f] = getattr(operator, opn)
+                m.op = opn
+                desc[f] = opn
             elif f in ('region1', 'region2'):
                 cls_pool = sorted(gen.SKY_CLASSES if S.model.sky
                                   else gen.PIXEL_CLASSES)
@@ -965,6 +1037,8 @@ class Machine:
                 m.r1 = planned.r1
             elif f == 'region2':
                 m.r2 = planned.r2
+            elif f == 'operator':
+                m.op = planned.op
             else:
                 m.tok[f] = planned.tok[f]
         self._copy_checks(f'copy(**{sorted(changes)})', a, obj, m,
@@ -1090,7 +1164,11 @@ class Machine:
                     f, d, md, e = 'meta', getattr(to, 'meta'), tm.meta, 'tag'
                 if e in ('del', 'pop') and not md.d:
                     e = 'set'
-                if e == 'tag' and not isinstance(md.d.get('tag'), list):
+                lkeys = sorted(k for k, x in md.d.items()
+                               if isinstance(x, list))
+                if inplace_only:
+                    lkeys = [k for k in lkeys if k == 'tag']
+                if e == 'tag' and not lkeys:
                     e = 'set'
                 if e == 'set':
                     k = rng.pick(sorted(menu))
@@ -1133,9 +1211,24 @@ class Machine:
                 elif e == 'tag':
                     self.nmut += 1
                     t = f'newtag{self.nmut}'
-                    d['tag'].append(t)
-                    md.d['tag'].append(t)
-                    what += f"{f}['tag'].append({t!r})"
+                    k = rng.pick(lkeys)
+                    how = rng.pick(['append', 'append', 'setitem', 'pop',
+                                    'reverse'])
+                    if how in ('setitem', 'pop') and not md.d[k]:
+                        how = 'append'
+                    if how == 'reverse' and (
+                            len(md.d[k]) < 2 or md.d[k] == md.d[k][::-1]):
+                        how = 'append'
+                    for L in (d[k], md.d[k]):
+                        if how == 'append':
+                            L.append(t)
+                        elif how == 'setitem':
+                            L[-1] = t
+                        elif how == 'pop':
+                            L.pop()
+                        else:
+                            L.reverse()
+                    what += f"{f}[{k!r}] list edited in place ({how})"
                 touched.add(id(md))
                 if m.compound:
                     m.eq_unknown = True
@@ -1171,10 +1264,12 @@ class Machine:
                     what += f'{f}.x/y = base+-{eps:.3f} (in place)'
                 elif kind == 'pixverts':
                     i = rng.randrange(len(v.x))
-                    if not v.x.flags.writeable:
+                    ax = rng.pick(['x', 'y'])
+                    arr = getattr(v, ax)
+                    if not arr.flags.writeable:
                         return
-                    v.x[i] = base.x[i] + eps
-                    what += f'{f}.x[{i}] = base+{eps:.3f} (in place)'
+                    arr[i] = getattr(base, ax)[i] + eps
+                    what += f'{f}.{ax}[{i}] = base+{eps:.3f} (in place)'
                 elif kind in ('asize', 'angle'):
                     newq = (base.value + eps) * base.unit
                     v -= v
@@ -1415,6 +1510,25 @@ class Machine:
             return
         self.compare_objs(S.obj, S.obj, None if S.model.eq_unknown else True,
                           f'slot {a} with itself', S.model.cls)
+        if rng.chance(0.2):
+            # something that is not a region at all: unequal, never raising
+            from regions import Regions
+            other = rng.pick([None, 5, 'circle', (1, 2), S.obj.meta,
+                              type(S.obj), Regions([S.obj]), 1.5,
+                              build({'t': 'pix', 'x': 1.0, 'y': 2.0})])
+            try:
+                r1, r2, r3 = S.obj == other, S.obj != other, other == S.obj
+                if r1 is not False or r2 is not True or bool(r3):
+                    self.violation('V3-eq-model', f'slot {a} '
+                                   f'({S.model.cls}) compared with a '
+                                   f'{type(other).__name__}: == gives {r1!r}, '
+                                   f'!= gives {r2!r}, reflected == gives '
+                                   f'{r3!r}', cls=S.model.cls)
+            except Exception as exc:
+                self.violation('V3-eq-raises', f'slot {a} ({S.model.cls}) '
+                               f'compared with a {type(other).__name__} '
+                               f'raised {type(exc).__name__}: '
+                               f'{str(exc)[:120]}', cls=S.model.cls)
         others = [i for i, s in enumerate(self.slots)
                   if s.kind == 'region' and i != a]
         # prefer same-class partners (copies), they are the informative ones
@@ -1611,9 +1725,15 @@ class Machine:
             meta_items, visual_items = [], []
         import regions
         what = f'{cls}({field}={value})' if invalid else f'{cls}(valid)'
+        default_angle = False
+        if 'angle' in kw and 'angle' not in field and rng.chance(0.2):
+            # the optional rotation angle left at its default
+            del kw['angle']
+            del params['angle']
+            default_angle = True
         if rng.chance(0.4):
             # the same call with the shape parameters given positionally
-            order = [f for f, _ in fields]
+            order = [f for f, _ in fields if f in kw]
             pos = [kw.pop(f) for f in order]
             call = lambda: getattr(regions, cls)(*pos, **kw)  # noqa
         else:
@@ -1633,6 +1753,9 @@ class Machine:
         i = self.add_slot('region', res, m)
         if out == 'ok':
             self.readback(i, cls, params)
+            if default_angle:
+                import astropy.units as u
+                self.readback(i, cls, {'angle': 0.0 * u.deg})
 
     def readback(self, i, cls, values):
         obj = self.slots[i].obj
@@ -1723,7 +1846,17 @@ class Machine:
             items = draw_dict_items(rng, f)
             d = {k: build(x) for k, x in items}
             form = rng.pick(['dict', 'typed'])
-            if invalid:
+            if invalid and rng.chance(0.3):
+                from regions import RegionMeta, RegionVisual
+                Other = RegionVisual if f == 'meta' else RegionMeta
+                omenu = VISUAL_MENU if f == 'meta' else META_MENU
+                ok_ = [k for k in (VISUAL_ONLY if f == 'meta' else META_ONLY)
+                       if k in omenu]
+                k = rng.pick(ok_)
+                v = Other({k: build(rng.pick(omenu[k]))})
+                form = 'typed-other'
+                value = 'dict:otherkind'
+            elif invalid:
                 bad = 'badkey'
                 keys = list(d)
                 d[bad_key(rng, f)] = 1
@@ -1738,11 +1871,20 @@ class Machine:
                     RegionMeta(d) if f == 'meta' else RegionVisual(d))
                 value = f'dict:valid-{form}'
         what = f'{cls}.{f} = {value}'
+        names = [g for g, _ in fields] + ['meta', 'visual']
+        others0 = {g: canon(getattr(obj, g)) for g in names if g != f}
         out, _ = self.c17_outcome(lambda: setattr(obj, f, v), invalid, what,
                                   cls, f, value, target=a)
         self.ev(slot=a, cls=cls, field=f, value=value, invalid=invalid,
                 outcome=out)
         if out == 'ok':
+            for g, c0 in others0.items():
+                c1 = canon(getattr(obj, g))
+                if c1 != c0:
+                    self.violation('A2-collateral', f'{what}: accepted, but '
+                                   f'the field {g!r} of the same region '
+                                   f'changed too: {diff(c0, c1)}', cls=cls,
+                                   field=f)
             if f in ('meta', 'visual'):
                 got = getattr(obj, f)
                 if dict(got) != dict(v):
@@ -1825,7 +1967,8 @@ class Machine:
         if not items:
             items = [[rng.pick(sorted(menu)), 1]]
         if entry in ('update_kw', 'ctor_kw', 'update_map_kw', 'ctor_map_kw'):
-            if any(not k.isidentifier() for k, _ in items):
+            if any(not (isinstance(k, str) and k.isidentifier())
+                   for k, _ in items):
                 entry = 'update_map' if entry.startswith('update') \
                     else 'ctor_map'
         k0, v0 = items[0] if not invalid else [badk, 1]
@@ -1954,7 +2097,9 @@ class Machine:
         members = [regs[rng.randrange(len(regs))] for _ in range(n)] \
             if regs else []
         bad = rng.pick([None, 'circle', 5, {'t': 'x'}, (1, 2), object,
-                        build({'t': 'pix', 'x': 1.0, 'y': 2.0})])
+                        build({'t': 'pix', 'x': 1.0, 'y': 2.0}),
+                        Regions(list(regs[:1])), list(regs[:1]),
+                        type(regs[0]) if regs else int])
         entry = rng.pick(['ctor', 'append', 'extend', 'insert',
                           'extend_regions'])
         if a is None and entry != 'ctor':
@@ -2069,9 +2214,20 @@ class Machine:
                             for k, v in draw_dict_items(rng, 'visual')}
         cls = 'CompoundSkyRegion' if sky else 'CompoundPixelRegion'
         what = f'{cls}({value})'
-        out, res = self.c17_outcome(
-            lambda: getattr(regions, cls)(r1, r2, opr, **kw), invalid, what,
-            cls, 'operands', value)
+        call = lambda: getattr(regions, cls)(r1, r2, opr, **kw)  # noqa
+        if not kw and callable(opr) and rng.chance(0.4):
+            # the same through the operators and set-like methods
+            opn = opr.__name__
+            if hasattr(r1, 'union') and rng.chance(0.5):
+                meth = {'and_': 'intersection', 'or_': 'union',
+                        'xor': 'symmetric_difference'}[opn]
+                call = lambda: getattr(r1, meth)(r2)  # noqa
+                what = f'region.{meth}({value})'
+            else:
+                call = lambda: opr(r1, r2)  # noqa
+                what = f'region {opn} ({value})'
+        out, res = self.c17_outcome(call, invalid, what, cls, 'operands',
+                                    value)
         self.ev(cls=cls, invalid=invalid, value=value, outcome=out)
         if out == 'rejected':
             return
@@ -2210,7 +2366,103 @@ class Machine:
         a = self.pick(op['s'], lambda s: s.kind == 'region')
         if a is None:
             return
+        obj = self.slots[a].obj
+        before = canon(obj)
+        try:
+            for f in getattr(obj, '_params', ()) + ('meta', 'visual'):
+                getattr(obj, f)
+            repr(obj), str(obj), obj == obj
+        except Exception as exc:
+            self.violation('A3-readback', f'slot {a} ({_cname(obj)}) cannot '
+                           f'be read: {exc!r}', cls=_cname(obj))
+        after = canon(obj)
+        if after != before:
+            self.violation('A3-readback', f'slot {a} ({_cname(obj)}) changed '
+                           f'by being read: {diff(before, after)}',
+                           cls=_cname(obj))
         self.ev(slot=a)
+
+    # ------------------------------------------------- copy with changes
+    def op_copyset(self, op, rng):
+        """``region.copy(field=value)``: the same domain as assignment."""
+        a = self.pick(op['s'], lambda s: s.kind == 'region'
+                      and not s.model.compound)
+        if a is None:
+            return
+        S = self.slots[a]
+        m, obj, cls = S.model, S.obj, S.model.cls
+        if m.tainted:
+            return
+        fields = m.fields()
+        invalid = rng.chance(0.65)
+        c = rng.weighted([('field', 6), ('order', 3 if cls in
+                                         gen.ANNULUS_PAIRS else 0),
+                          ('dict', 2)])
+        if not invalid and c == 'order':
+            c = 'field'
+        if c == 'field':
+            cands = [(f, k) for f, k in fields
+                     if (invalid_values(k) if invalid else
+                         all(f not in p for p in
+                             gen.ANNULUS_PAIRS.get(cls, [])))]
+            if not cands:
+                return
+            f, kind = rng.pick(cands)
+            if invalid:
+                value, rec = rng.pick(invalid_values(kind))
+                v = build_invalid(rec)
+                value = f'{kind}:{value}'
+            else:
+                v = valid_variant(rng, kind,
+                                  rng.randrange(gen.KIND_SIZES[kind]))
+                value = f'{kind}:valid'
+        elif c == 'order':
+            inner, outer = rng.pick(gen.ANNULUS_PAIRS[cls])
+            kind = dict(fields)[inner]
+            try:
+                if rng.chance(0.5):
+                    f, ref = inner, getattr(obj, outer)
+                    cand = [t for t in range(gen.KIND_SIZES[kind])
+                            if not (mk_value(kind, t) < ref)]
+                else:
+                    f, ref = outer, getattr(obj, inner)
+                    cand = [t for t in range(gen.KIND_SIZES[kind])
+                            if not (mk_value(kind, t) > ref)]
+            except Exception:
+                return
+            if not cand:
+                return
+            v = mk_value(kind, rng.pick(cand))
+            value = 'order:violating'
+        else:
+            f = rng.pick(['meta', 'visual'])
+            d = {k: build(x) for k, x in draw_dict_items(rng, f)}
+            if invalid:
+                d[bad_key(rng, f)] = 1
+                value = 'dict:badkey'
+            else:
+                value = 'dict:valid'
+            v = d
+        what = f'{cls}.copy({f}={value})'
+        out, res = self.c17_outcome(lambda: obj.copy(**{f: v}), invalid,
+                                    what, cls, f, value)
+        self.ev(slot=a, cls=cls, field=f, value=value, invalid=invalid,
+                outcome=out)
+        if out == 'rejected':
+            return
+        n = mcopy(m)
+        if out == 'wrongly-accepted':
+            n.tainted.add(f)
+            if c == 'order':
+                n.tainted.update((inner, outer, inner + '/' + outer))
+        i = self.add_slot('region', res, n)
+        if out == 'ok':
+            if f in ('meta', 'visual'):
+                if dict(getattr(res, f)) != dict(v):
+                    self.violation('A3-readback', f'{what}: reads back '
+                                   f'{getattr(res, f)!r}', cls=cls, field=f)
+            else:
+                self.readback(i, cls, {f: v})
 
     def standing_invariant(self):
         for i, s in enumerate(self.slots):
@@ -2328,7 +2580,8 @@ C16_OPS = [('new', 5), ('copy', 5), ('copy_changes', 4), ('mutate', 9),
            ('listedit', 3), ('compare', 2), ('classvariant', 1.5)]
 C17_OPS = [('construct', 6), ('setattr', 8), ('delattr', 1.5),
            ('dictop', 6), ('listop', 3), ('compound', 2),
-           ('compound_set', 1.5), ('boxmask', 1.5), ('readback', 0.5)]
+           ('compound_set', 1.5), ('boxmask', 1.5), ('readback', 0.5),
+           ('copyset', 2.5)]
 
 
 def gen_plan(seed, index, tier='quick', mode='c16'):
